@@ -1,6 +1,370 @@
+//! C02 — a ProbMinHash signature is a function of the weighted set alone (exact relations, register hook)
 use crate::common::*;
+use crate::gen::*;
+use crate::sk::*;
+use rand::Rng as _;
+use rand::RngCore;
+use rayon::prelude::*;
+use serde_json::{json, Value};
+
+const PH: u64 = 0; // placeholder, never an item (fresh_ids avoids 0)
+
+#[derive(Debug)]
+struct Fail {
+    key: String,
+    what: String,
+}
+
+#[derive(Default)]
+struct Obs {
+    execs: u64,
+    ties: u64,
+    outside_exact_domain: u64,
+    relations_checked: u64,
+    fails: Vec<Fail>,
+    known_class: bool,
+}
+
+/// compares (sig, reg) with the reference; equal registers with different items = tie (excused)
+fn same(obs: &mut Obs, rel: &str, sig0: &[u64], reg0: &[f64], sig: &[u64], reg: &[f64]) {
+    obs.relations_checked += 1;
+    for p in 0..sig0.len() {
+        if reg0[p].to_bits() != reg[p].to_bits() {
+            obs.fails.push(Fail { key: format!("C02/{}", rel), what: format!("{}: register of position {} differs: {:e} vs {:e} (items {} vs {})", rel, p, reg0[p], reg[p], sig0[p], sig[p]) });
+            return;
+        }
+        if sig0[p] != sig[p] {
+            // same register value, different items : exact floating point tie between two items, legitimately order dependent
+            obs.ties += 1;
+        }
+    }
+}
+
+fn gen_weights(rng: &mut Rng, n: usize, class: u32) -> Vec<f64> {
+    match class {
+        0 => (0..n).map(|_| 1.0).collect(),
+        1 => (0..n).map(|_| rng.random_range(1..10u32) as f64).collect(),
+        2 => (0..n).map(|_| 10f64.powf(rng.random_range(-6.0..6.0))).collect(),
+        3 => (0..n).map(|_| 10f64.powf(rng.random_range(-300.0..300.0))).collect(),
+        4 => (0..n).map(|_| 10f64.powf(rng.random_range(250.0..300.0))).collect(), // all huge
+        5 => (0..n).map(|_| 10f64.powf(rng.random_range(-300.0..-250.0))).collect(), // all tiny (still representable races)
+        6 => {
+            // one dominating item
+            let mut w: Vec<f64> = (0..n).map(|_| rng.random_range(0.5..2.0)).collect();
+            w[0] = 1e9;
+            w
+        }
+        _ => (0..n).map(|i| (i + 1) as f64).collect(),
+    }
+}
+
+/// input class of the known finding: total weight so small that the race horizon exceeds f64::MAX
+fn race_overflow_class(m: usize, wsum: f64) -> bool {
+    let horizon = 64.0 * m as f64 * (1.0 + (m as f64).ln()) / wsum;
+    !horizon.is_finite()
+}
+
+fn check_set(v: Pv, hs: Hs, m: usize, w: &[(u64, f64)], rng: &mut Rng, do_singles: bool, obs: &mut Obs) {
+    let n = w.len();
+    let wsum: f64 = w.iter().map(|x| x.1).sum();
+    obs.known_class = race_overflow_class(m, wsum);
+    let base_entry = Entry::Item;
+    let (sig0, reg0) = pmh(v, hs, m, w, base_entry, PH);
+    obs.execs += 1;
+    // ---- R5 membership
+    obs.relations_checked += 1;
+    for p in 0..m {
+        if !w.iter().any(|x| x.0 == sig0[p]) {
+            let what = if sig0[p] == PH { "placeholder" } else { "foreign item" };
+            let key = if sig0[p] == PH && obs.known_class { "C02/placeholder/race-overflow".to_string() } else if sig0[p] == PH { "C02/placeholder".to_string() } else { "C02/foreign-item".to_string() };
+            obs.fails.push(Fail { key, what: format!("position {} of the signature of a non-empty set holds the {} ({}), register {:e}, total weight {:e}", p, what, sig0[p], reg0[p], wsum) });
+            break;
+        }
+    }
+    // ---- R1 orders
+    let mut orders: Vec<(String, Vec<(u64, f64)>)> = Vec::new();
+    for k in 0..2 {
+        let mut o = w.to_vec();
+        shuffle(&mut o, rng);
+        orders.push((format!("shuffle{}", k), o));
+    }
+    let mut o = w.to_vec();
+    o.sort_by(|a, b| b.1.partial_cmp(&a.1).unwrap());
+    orders.push(("heaviest_first".into(), o.clone()));
+    o.reverse();
+    orders.push(("lightest_first".into(), o));
+    let mut rev = w.to_vec();
+    rev.reverse();
+    orders.push(("reversed".into(), rev));
+    // winners (items present in the signature) last / first
+    let (mut win, mut lose): (Vec<(u64, f64)>, Vec<(u64, f64)>) = w.iter().partition(|x| sig0.contains(&x.0));
+    shuffle(&mut win, rng);
+    shuffle(&mut lose, rng);
+    let mut wl = lose.clone();
+    wl.extend_from_slice(&win);
+    orders.push(("winners_last".into(), wl));
+    let mut wf = win.clone();
+    wf.extend_from_slice(&lose);
+    orders.push(("winners_first".into(), wf));
+    for (name, o) in &orders {
+        let (s, r) = pmh(v, hs, m, o, base_entry, PH);
+        obs.execs += 1;
+        same(obs, &format!("order/{}", name), &sig0, &reg0, &s, &r);
+    }
+    // ---- R1 entry points and batchings (on a shuffled order)
+    let entries: Vec<Entry> = match v {
+        Pv::P2 => vec![Entry::Wset, Entry::HashMapStd],
+        Pv::P3 => vec![Entry::Wset, Entry::IdxMap, Entry::HashMapStd],
+        _ => vec![Entry::IdxMap, Entry::HashMapStd, Entry::Batches(2), Entry::Batches(rng.random_range(2..=4)), Entry::HashBatches(3)],
+    };
+    for e in entries {
+        let o = &orders[rng.random_range(0..orders.len())].1;
+        let (s, r) = pmh(v, hs, m, o, e, PH);
+        obs.execs += 1;
+        same(obs, &format!("entry/{:?}", e), &sig0, &reg0, &s, &r);
+    }
+    // ---- R2 re-insertion of already inserted pairs
+    {
+        let mut sub: Vec<(u64, f64)> = w.iter().filter(|_| rng.random_range(0..2) == 0).cloned().collect();
+        if sub.is_empty() {
+            sub.push(w[0]);
+        }
+        shuffle(&mut sub, rng);
+        let (s, r) = pmh_batches(v, hs, m, &[w, &sub], PH);
+        obs.execs += 1;
+        same(obs, "reinsertion", &sig0, &reg0, &s, &r);
+        // re-inserting everything
+        let (s, r) = pmh_batches(v, hs, m, &[w, &orders[0].1, &sub], PH);
+        obs.execs += 1;
+        same(obs, "reinsertion", &sig0, &reg0, &s, &r);
+    }
+    // ---- R3 variant 3 == variant 3a (same hasher)
+    if v == Pv::P3 {
+        let (s, r) = pmh(Pv::P3a, hs, m, &orders[0].1, Entry::IdxMap, PH);
+        obs.execs += 1;
+        same(obs, "pmh3-vs-pmh3a", &sig0, &reg0, &s, &r);
+        let (s, r) = pmh(Pv::P3a, hs, m, &orders[1].1, Entry::Batches(3), PH);
+        obs.execs += 1;
+        same(obs, "pmh3-vs-pmh3a", &sig0, &reg0, &s, &r);
+    }
+    // ---- R4 scaling by a power of two
+    {
+        let k: i32 = [1, -1, 3, 10, -10, 40, -40, 200, -200][rng.random_range(0..9)];
+        let f = 2f64.powi(k);
+        let scaled: Vec<(u64, f64)> = w.iter().map(|x| (x.0, x.1 * f)).collect();
+        let rmin = reg0.iter().cloned().fold(f64::INFINITY, f64::min);
+        let rmax = reg0.iter().cloned().fold(0., f64::max);
+        let wmin = w.iter().map(|x| x.1).fold(f64::INFINITY, f64::min);
+        let wmax = w.iter().map(|x| x.1).fold(0., f64::max);
+        // exactness domain: weights, inverse weights, registers and their scaled images all normal and far from the ends
+        let lo = 1e-290;
+        let hi = 1e290;
+        let inside = wmin * f > lo && wmax * f < hi && wmin > lo && wmax < hi && rmin > lo && rmax < hi && rmin / f > lo && rmax / f < hi && 1. / wmax > lo && 1. / (wmax * f) > lo;
+        if inside {
+            let (s, r) = pmh(v, hs, m, &scaled, base_entry, PH);
+            obs.execs += 1;
+            obs.relations_checked += 1;
+            for p in 0..m {
+                let expect = reg0[p] / f; // exact: division by a power of two inside the normal range
+                if r[p].to_bits() != expect.to_bits() {
+                    obs.fails.push(Fail { key: "C02/scaling".into(), what: format!("weights x 2^{}: register {} is {:e}, expected exactly {:e}", k, p, r[p], expect) });
+                    break;
+                }
+                if s[p] != sig0[p] {
+                    obs.ties += 1;
+                }
+            }
+        } else {
+            obs.outside_exact_domain += 1;
+        }
+    }
+    // ---- R6 union composition on a random cover A, B of W with equal weights on the intersection
+    if n >= 2 {
+        let mut a = Vec::new();
+        let mut b = Vec::new();
+        for x in w {
+            match rng.random_range(0..3) {
+                0 => a.push(*x),
+                1 => b.push(*x),
+                _ => {
+                    a.push(*x);
+                    b.push(*x);
+                }
+            }
+        }
+        if a.is_empty() {
+            a.push(w[0]);
+        }
+        if b.is_empty() {
+            b.push(w[n - 1]);
+        }
+        let (sa, ra) = pmh(v, hs, m, &a, base_entry, PH);
+        let (sb, rb) = pmh(v, hs, m, &b, base_entry, PH);
+        obs.execs += 2;
+        obs.relations_checked += 1;
+        for p in 0..m {
+            let mn = ra[p].min(rb[p]);
+            if reg0[p].to_bits() != mn.to_bits() {
+                obs.fails.push(Fail { key: "C02/union".into(), what: format!("union: register {} is {:e} but min(reg(A),reg(B)) = {:e}", p, reg0[p], mn) });
+                break;
+            }
+            if sig0[p] != sa[p] && sig0[p] != sb[p] {
+                obs.fails.push(Fail { key: "C02/union".into(), what: format!("union: position {} holds {} which is the signature of neither A ({}) nor B ({})", p, sig0[p], sa[p], sb[p]) });
+                break;
+            }
+            let from_a = ra[p] < rb[p];
+            let from_b = rb[p] < ra[p];
+            if (from_a && sig0[p] != sa[p]) || (from_b && sig0[p] != sb[p]) {
+                obs.fails.push(Fail { key: "C02/union".into(), what: format!("union: position {} does not hold the item of the side attaining the minimum", p) });
+                break;
+            }
+        }
+    }
+    // ---- R6 with single items : unpruned reference
+    if do_singles {
+        let mut best = vec![f64::INFINITY; m];
+        let mut arg = vec![PH; m];
+        let mut tie = vec![false; m];
+        for x in w {
+            let (_s, r) = pmh(v, hs, m, &[*x], base_entry, PH);
+            obs.execs += 1;
+            for p in 0..m {
+                if r[p] < best[p] {
+                    best[p] = r[p];
+                    arg[p] = x.0;
+                    tie[p] = false;
+                } else if r[p] == best[p] {
+                    tie[p] = true;
+                }
+            }
+        }
+        obs.relations_checked += 1;
+        if !obs.known_class {
+            for p in 0..m {
+                if reg0[p].to_bits() != best[p].to_bits() {
+                    obs.fails.push(Fail { key: "C02/unpruned-reference".into(), what: format!("position {}: register {:e} but the smallest single-item register is {:e} (item {}): a valid point was pruned or a foreign value entered", p, reg0[p], best[p], arg[p]) });
+                    break;
+                }
+                if sig0[p] != arg[p] {
+                    if tie[p] {
+                        obs.ties += 1;
+                    } else {
+                        obs.fails.push(Fail { key: "C02/unpruned-reference".into(), what: format!("position {}: holds {} but the argmin over single-item sketches is {}", p, sig0[p], arg[p]) });
+                        break;
+                    }
+                }
+            }
+        }
+    }
+}
+
+fn case_json(v: Pv, hs: Hs, m: usize, w: &[(u64, f64)]) -> Value {
+    json!({"variant": v.name(), "hasher": format!("{:?}", hs), "m": m, "n": w.len(),
+        "items": w.iter().take(40).map(|x| json!([x.0, format!("{:e}", x.1)])).collect::<Vec<_>>()})
+}
 
 pub fn run(rep: &mut Report) {
-    let _ = rep;
-    eprintln!("C02 not implemented yet");
+    quiet_panics();
+    rep.rule = "per generated weighted set (n in 1..300, m in 1..1024, weights from 8 classes incl. 1e-300..1e300, all-tiny, all-huge, one dominating item) and variant: ~14-20 executions of the real code (7 insertion orders incl. heaviest/lightest first and winners first/last, all entry points and batchings, re-insertion, 3 vs 3a, weights x 2^k, union cover, single-item unpruned reference) compared bit-exactly on signature AND registers. Distinct = digest of (variant, m, items, weights); non-trivial when n >= 2".into();
+    let nsets: u64 = rep.tier.pick(30_000, 1_500_000);
+    let seed = subseed(rep.seed, "C02/sets", &[]);
+    let only = rep.only_cell.clone();
+    let results: Vec<(u64, Obs, Option<Value>, u64, u64)> = (0..nsets)
+        .into_par_iter()
+        .filter(|i| only.as_ref().map(|c| c == &format!("set{}", i) || c == "sets").unwrap_or(true))
+        .map(|i| {
+            let mut rng = rng_from(mix(&[seed, i]));
+            let v = ALL_PV[(i % 4) as usize];
+            let hs = if v != Pv::P3aSha && rng.random_range(0..5) == 0 { Hs::NoHash } else { Hs::Fnv };
+            let n = match rng.random_range(0..10) {
+                0 => 1,
+                1 => 2,
+                2 | 3 => rng.random_range(3..10),
+                4..=7 => rng.random_range(10..80),
+                _ => rng.random_range(80..300),
+            };
+            let m = match rng.random_range(0..10) {
+                0 => v.min_m(),
+                1 => 2,
+                2 => 3,
+                3 | 4 => rng.random_range(4..17),
+                5..=7 => rng.random_range(17..129),
+                _ => rng.random_range(129..1025),
+            };
+            let class = rng.random_range(0..8u32);
+            let ids = fresh_ids(&mut rng, n, PH);
+            let ws = gen_weights(&mut rng, n, class);
+            let w: Vec<(u64, f64)> = ids.iter().cloned().zip(ws.iter().cloned()).collect();
+            let do_singles = n <= 30 || (i % 8 == 0 && n * m <= 40_000);
+            let mut obs = Obs::default();
+            let r = catch(std::panic::AssertUnwindSafe(|| {
+                let mut o = Obs::default();
+                check_set(v, hs, m, &w, &mut rng, do_singles, &mut o);
+                o
+            }));
+            match r {
+                Ok(o) => obs = o,
+                Err(p) => obs.fails.push(Fail { key: "C02/panic".into(), what: format!("panic: {}", p) }),
+            }
+            let dig = mix(&[v as u64, m as u64, digest_u64s(&ids), digest_f64s(&ws)]);
+            let case = if !obs.fails.is_empty() || i < 3 { Some(case_json(v, hs, m, &w)) } else { None };
+            (i, obs, case, dig, n as u64)
+        })
+        .collect();
+    for (i, obs, case, dig, n) in results {
+        rep.evaluations += obs.execs;
+        rep.count("sets", 1);
+        rep.count("relations_checked", obs.relations_checked);
+        if obs.ties > 0 {
+            rep.excuse("exact_float_ties_between_items", obs.ties);
+        }
+        if obs.outside_exact_domain > 0 {
+            rep.excuse("scaling_outside_exactness_domain", obs.outside_exact_domain);
+        }
+        if n >= 2 {
+            rep.distinct.insert(dig);
+        }
+        if i < 3 {
+            if let Some(c) = &case {
+                rep.sample(c.clone());
+            }
+        }
+        for f in obs.fails {
+            rep.violation(&f.key, &format!("set{}", i), f.what, case.clone().unwrap_or(json!(null)));
+        }
+    }
+    // ---- dedicated cell of the known finding class: total weight below the representable race horizon
+    if rep.want("tiny") {
+        let seed = subseed(rep.seed, "C02/tiny", &[]);
+        let mut rng = rng_from(seed);
+        let ntiny = rep.tier.pick(40, 400);
+        for t in 0..ntiny {
+            let v = ALL_PV[t % 4];
+            let m = [2usize, 10, 100, 1000][rng.random_range(0..4)].max(v.min_m());
+            let n = rng.random_range(1..20);
+            let ids = fresh_ids(&mut rng, n, PH);
+            let e = rng.random_range(-307.6..-305.5);
+            let w: Vec<(u64, f64)> = ids.iter().map(|&d| (d, 10f64.powf(e) * rng.random_range(0.5..1.0))).collect();
+            let mut obs = Obs::default();
+            let res = catch(std::panic::AssertUnwindSafe(|| {
+                let mut o = Obs::default();
+                let mut r2 = rng_from(mix(&[seed, t as u64]));
+                check_set(v, Hs::Fnv, m, &w, &mut r2, false, &mut o);
+                o
+            }));
+            match res {
+                Ok(o) => obs = o,
+                Err(p) => obs.fails.push(Fail { key: "C02/panic".into(), what: format!("panic: {}", p) }),
+            }
+            rep.evaluations += obs.execs;
+            rep.count("tiny.sets", 1);
+            rep.distinct.insert(mix(&[77, t as u64, digest_u64s(&ids)]));
+            for f in obs.fails {
+                rep.violation(&f.key, "tiny", f.what, case_json(v, Hs::Fnv, m, &w));
+            }
+        }
+    }
+    collect_ticks(rep);
+    rep.assumptions.push("equal registers with different items are exact floating point ties between two items and are excused (counted in coverage.excused)".into());
+    rep.assumptions.push("the power-of-two scaling clause is judged only when weights, inverse weights and registers stay in the normal range [1e-290,1e290] (counted otherwise)".into());
 }
